@@ -280,3 +280,10 @@ def _pytest_option_builder(ts):
 def pytest_option(name):
     """The value pytest's config object returns for an option name (uninterpreted)."""
     raise NotImplementedError
+
+
+@_native('(int, int) -> str', _app_builder('py_format_d', ['Int', 'Int'], 'String'))
+def fmt_d(x, width):
+    """'{x:{width}d}'.format(...): the number as displayed in a numbered listing (uninterpreted; the same symbol as the model of
+    that format spec)."""
+    return '{x:{w}d}'.format(x=x, w=width)
